@@ -161,8 +161,10 @@ def visit_order_rule(crate, prop, rule="C13.R2"):
         if b is None:
             r.fail(prop, "anchor-missing " + nm, "function not found")
             continue
-        bad = [(i, l["name"], l["ty"]) for i, l in enumerate(b.locals) if re.search(r"collections::Hash(Map|Set)<", l["ty"])]
-        ordered = [(l["name"], l["ty"][:80]) for l in b.locals if l["name"] and re.search(r"collections::BTree(Map|Set)<", l["ty"])]
+        # the function together with the helpers and closures only it uses
+        group = [x for x in crate.bodies if x.path in crate.owned_by(nm)] or [b]
+        bad = [(i, l["name"], l["ty"]) for x in group for i, l in enumerate(x.locals) if re.search(r"collections::Hash(Map|Set)<", l["ty"])]
+        ordered = [(l["name"], l["ty"][:80]) for x in group for l in x.locals if l["name"] and re.search(r"collections::BTree(Map|Set)<", l["ty"])]
         r.inst(fn=nm, ordered_locals=ordered, hash_locals=len(bad))
         if not ordered:
             r.fail(prop, "no-ordered-collection " + nm, "%s no longer accumulates imports in a BTreeMap/BTreeSet" % nm, b.file(), b.line())
